@@ -129,7 +129,8 @@ def check(case, rec):
             else:
                 continue
         if kind in ('fit', 'fit_buffer'):
-            x = sigs[op[1] % len(sigs)]
+            # index -1: the recording of the previous fit once more (the threshold-tuning loop: fit, look, recompute, edit, fit)
+            x = last_sig if (op[1] == -1 and last_sig is not None) else sigs[op[1] % len(sigs)]
             if kind == 'fit_buffer':
                 # the caller keeps ONE array object and refills it in place before every fit (acquisition buffer)
                 buffer[:] = x
@@ -377,7 +378,7 @@ def st_op(draw, band):
     if kind == 'fit' or kind == 'load':
         if kind == 'fit' and draw(st.integers(0, 3)) == 0:
             kind = 'fit_buffer'
-        return [kind, draw(st.integers(0, 3))]
+        return [kind, draw(st.sampled_from([0, 1, 2, 3, -1, -1]) if kind != 'load' else st.integers(0, 3))]
     if kind == 'recompute':
         return [kind, draw(st.sampled_from([None, 0, 0.05, 0.1, 0.3]))]
     if kind == 'np_thresholds' or kind == 'clone' or kind == 'set_extrema_option':
